@@ -174,12 +174,14 @@ func c04gen(rng *rand.Rand, i int, big bool) *c04case {
 		}
 		h[name] = c04string(rng, class, lv)
 	}
-	// reserved names appear in real traffic: sometimes include them
+	// reserved names appear in real traffic: sometimes include them.  Their
+	// values are header values like any other: the peer that wrote them need
+	// not be the Go runtime (see reserved.go)
 	if rng.Intn(3) == 0 {
-		h["_opid"] = fmt.Sprint(rng.Uint64())
+		h["_opid"] = c04opid(rng, class)
 	}
 	if rng.Intn(3) == 0 {
-		h["_cid"] = c04string(rng, "ascii", 22)
+		h["_cid"] = c04cid(rng, class)
 	}
 	pl := []int{0, 0, 1, 4, 5, 9, 64, 512, 4096}[rng.Intn(9)]
 	payload := []byte(c04string(rng, []string{"bytes", "headerlike"}[rng.Intn(2)], pl))
@@ -442,31 +444,11 @@ func c04readers(pf *frugal.FProtocolFactory, wname string, w []byte, H map[strin
 	if !bytes.Equal(tb.Bytes(), payload) {
 		return wname + "->ReadResponseHeader", "payload after the headers consumed or altered"
 	}
-	// ReadRequestHeader (needs an op id)
+	// ReadRequestHeader (needs an op id; any op id text: reserved.go)
 	if _, ok := H["_opid"]; ok {
-		tb := &thrift.TMemoryBuffer{Buffer: bytes.NewBuffer(append([]byte(nil), stream...))}
-		ctx, err := pf.GetProtocol(tb).ReadRequestHeader()
-		if err != nil {
-			return wname + "->ReadRequestHeader", err.Error()
+		if l, m := c04requestLeg(pf, wname, stream, H, payload); m != "" {
+			return l, m
 		}
-		gotReq := ctx.RequestHeaders()
-		wantReq := copyMap(H)
-		delete(wantReq, "_opid")
-		newOp := gotReq["_opid"]
-		delete(gotReq, "_opid")
-		if !mapsEqual(gotReq, wantReq) {
-			return wname + "->ReadRequestHeader", "request headers differ"
-		}
-		if newOp == "" {
-			return wname + "->ReadRequestHeader", "no fresh op id"
-		}
-		if v, _ := ctx.ResponseHeader("_opid"); v != H["_opid"] {
-			return wname + "->ReadRequestHeader", "response _opid is not the request's"
-		}
-		if !bytes.Equal(tb.Bytes(), payload) {
-			return wname + "->ReadRequestHeader", "payload after the headers consumed or altered"
-		}
-		retain(wname+"->ReadRequestHeader", gotReq, wantReq)
 	}
 	// frame readers (the caller owns the buffer and reuses it afterwards)
 	body := append([]byte(nil), stream...)
@@ -494,7 +476,7 @@ func c04readers(pf *frugal.FProtocolFactory, wname string, w []byte, H map[strin
 
 func runC04(tier string, args []string) int {
 	run := ev.New("C04", tier, "exploration")
-	run.Rule("random header maps (0..1000 entries; name/value lengths 0..65536; ASCII, multi-byte UTF-8, arbitrary bytes, length-prefix look-alikes) followed by a payload; every case is written by the 3 Go writers and the reference writer, parsed by the reference parser and by all Go readers, and (valid UTF-8 cases) written and read by the repository's Python codec; distinct = (entries bucket, max length bucket, byte class, payload bucket)")
+	run.Rule("random header maps (0..1000 entries; name/value lengths 0..65536; ASCII, multi-byte UTF-8, arbitrary bytes, length-prefix look-alikes; the reserved names _opid/_cid present in a third of them with values a foreign peer may have written: canonical decimal, leading zeros, signed, padded, > 2^64-1, empty, opaque text/bytes) followed by a payload; every case is written by the 3 Go writers and the reference writer, parsed by the reference parser and by all Go readers, and (valid UTF-8 cases) written and read by the repository's Python codec; distinct = (entries bucket, max length bucket, byte class, payload bucket)")
 	run.Assume("reference codec in /verif/wire written from documentation/protocol.md is correct")
 	run.Assume("CPython 3 running lib/python/frugal/util/headers.py unmodified with a stub TProtocolException")
 	n := 2000
@@ -567,6 +549,20 @@ func runC04(tier string, args []string) int {
 		run.Set("exhaustive_small_space_maps", count)
 		run.Exhaustive(false) // the random pool is sampled; only this sub-space is enumerated completely
 		run.Distinct("small-space")
+	}
+
+	// enumerated reserved-name sub-space (Go legs only), the same at every seed
+	{
+		rs := c04reservedSpace()
+		for _, c := range rs {
+			run.Distinct("reserved opid=" + opidShape(c.H["_opid"]))
+			if leg, msg := c04goLegs(c, rng); msg != "" && !legsFailed[leg] {
+				legsFailed[leg] = true
+				run.Violation("C04:"+leg, msg, map[string]interface{}{"pairs": hexPairs(c.H), "payload": hex.EncodeToString(c.Payload), "leg": leg})
+			}
+		}
+		run.Eval(len(rs))
+		run.Set("reserved_name_space_maps", len(rs))
 	}
 
 	c04concurrent(run)
@@ -653,6 +649,12 @@ func runC04(tier string, args []string) int {
 		rf.Close()
 	}
 	run.Set("python_cases", pyCases)
+	run.Set("request_header_reads_by_opid_shape", requestReadsByOpidShape)
+	for _, shape := range []string{"canonical", "leading-zeros", "signed", "padded", "out-of-range", "empty", "opaque-text", "opaque-bytes"} {
+		if requestReadsByOpidShape[shape] == 0 && len(legsFailed) == 0 {
+			run.Inconclusive("no request header block with an op id of shape " + shape + " went through ReadRequestHeader")
+		}
+	}
 	run.Set("go_readers", strings.Split("readHeader,ReadResponseHeader,ReadRequestHeader,getHeadersFromFrame,addHeadersToFrame", ","))
 	if pyCases == 0 {
 		run.Inconclusive("python leg evaluated no case")
